@@ -24,7 +24,8 @@ MAP = load_map()
 
 # property -> how the shared differential run is read
 D_RULES = {
-    'C01': dict(channels=['val'], keep=lambda d: True),
+    # C01 is about calls that return (and at()'s out_of_range); the state after an injected throw belongs to C05/C06
+    'C01': dict(channels=['val'], keep=lambda d: not is_fault(d)),
     'C02': dict(channels=['shape'], keep=lambda d: True),
     'C03': dict(channels=['life'], keep=lambda d: True),
     'C04': dict(channels=['ledger'], keep=lambda d: True),
@@ -32,9 +33,9 @@ D_RULES = {
     'C06': dict(channels=['val', 'shape', 'life', 'ledger', 'exc'], keep=lambda d: True),
     'C07': dict(channels=['alloc'], keep=lambda d: True),
     'C09': dict(channels=['shape', 'life'], keep=lambda d: opk(d) in ('newm', 'asm', 'swp')),
-    'C10': dict(channels=['shape', 'ledger'], keep=lambda d: True),
-    'C11': dict(channels=['val'], keep=lambda d: '-alias' in d['cls'] or ' s' in d['op']),
-    'C14': dict(channels=['shape'], keep=lambda d: ' A' in d['impl'] or ' A' in d['model']),
+    'C10': dict(channels=['shape', 'ledger'], keep=lambda d: not is_fault(d)),
+    'C11': dict(channels=['val'], keep=lambda d: ('-alias' in d['cls'] or ' s' in d['op']) and not is_fault(d)),
+    'C14': dict(channels=['shape'], keep=lambda d: (' A' in d['impl'] or ' A' in d['model']) and not is_fault(d)),
     'C15': dict(channels=['iter', 'val'], keep=lambda d: ' in ' in d['op']),
 }
 
@@ -45,13 +46,35 @@ def setup_extra():
     pass
 
 
+def load_deps():
+    p = os.path.join(vlib.VERIF, 'properties.deps.json')
+    return json.load(open(p)) if os.path.exists(p) else {}
+
+
+DEPS = load_deps()
+
+
 def relevant_untranslatable(prop, items):
+    """which of the translator's complaints concern this property: a generated definition concerns a property iff one
+    of the property's theorems mentions it (transitively; computed by Lean, tools/mkdeps.py -> properties.deps.json);
+    a whole generated file iff the property lists it"""
     gen = MAP[prop].get('gen', [])
+    deps = set(DEPS.get(prop, {}).get('gen', []))
     out = []
     for u in items:
         item = u.get('item', '')
         if item.startswith('file '):
             if item[5:] in gen:
+                out.append(u)
+            continue
+        names = u.get('names') or ([u['name']] if u.get('name') else [])
+        if names and DEPS.get(prop) is not None:
+            if u.get('status') == 'new':
+                # a decision point the model does not have: concerns the properties whose theorems use the function's other guards
+                stem = names[0].rsplit('_new', 1)[0] + '_'
+                if any(d.startswith(stem) for d in deps):
+                    out.append(u)
+            elif any(n in deps for n in names):
                 out.append(u)
         elif item.startswith('guard') and 'Guards' in gen:
             out.append(u)
@@ -72,8 +95,9 @@ def collect(prop, tier, seed):
     for h in lean['forbidden']:
         proof.append(dict(theorem='(audit)', why='forbidden token: ' + h))
     if lean['build_rc'] != 0:
+        closure = vlib.import_closure(P['modules'])
         for m, e in lean['build_errors'].items():
-            if m in P['modules'] or m.startswith('SvModel.Gen') or m in ('SvModel.Ops', 'SvModel.Prim', 'SvModel.Api', 'SvModel.Basic') or m.startswith('SvModel.Proofs') or m.startswith('SvModel.Spec'):
+            if m in closure:      # a module this property's theorems are built on no longer elaborates
                 proof.append(dict(theorem='(module) ' + m, why='\n'.join(e[:12])))
     corr, wfind, crashes = [], [], []
     cov = dict(evaluations=0, cases=0, distinct=0, samples=[], stats={}, configs=[], cached=False, core_wall=0)
